@@ -101,7 +101,7 @@ func genC04(mode string) func(rng *Rng, sc *Scenario) {
 // expectedChain returns the handler ids the statement prescribes for a request, in start order.
 // The last element is "" when rux's built-in fallback handler (invisible to the trace) ends the chain.
 func expectedChain(w *World, nocache *World, method, path string) []string {
-	route, _, allowed := nocache.R.Match(method, nocache.EffPath(path))
+	route, _, allowed := nocache.R.QuickMatch(method, nocache.EffPath(path)) // as ServeHTTP does (Match would upper-case the method)
 	chain := append([]string{}, w.globals...)
 	if route != nil {
 		main := nocache.Identify(route.Handler())
